@@ -211,6 +211,9 @@ func Run(rep *hx.Report, props Props, tier string, sh hx.Shard, deadline time.Ti
 				// so that a truncation to 32 bits changes the residue
 				vals = []uint64{1, M/2 + 1, M - 1, 65537 % M, 92683 % M}
 			}
+			// pointers just below a multiple of the reduced limit used below
+			lim := M/2 - 1750
+			vals = append(vals, lim-1, 2*lim-1)
 			st := &State{M: M, P: 2, R: M, W: M, Core: make([]g.Instruction, M)}
 			for f := 0; f < hx.NForms; f++ {
 				if !sh.Mine(f) {
@@ -232,9 +235,6 @@ func Run(rep *hx.Report, props Props, tier string, sh hx.Shard, deadline time.Ti
 					continue
 				}
 				for _, pc := range []uint64{0, M - 1} {
-					if !thorough && pc == 0 {
-						continue
-					}
 					for i := range st.Core {
 						st.Core[i] = g.Instruction{}
 					}
@@ -243,7 +243,7 @@ func Run(rep *hx.Report, props Props, tier string, sh hx.Shard, deadline time.Ti
 						for _, b := range vals {
 							st.Core[pc] = hx.Mk(f, a, b)
 							st.R, st.W = M, M
-							if (a+b)%3 == 1 {
+							if (a+b)%3 == 1 || a == lim-1 || a == 2*lim-1 || b == lim-1 || b == 2*lim-1 {
 								st.R, st.W = M/2-1750, M/2-1750 // limits below the core size (48251 for M=100003)
 							} else if (a+b)%3 == 2 {
 								st.R, st.W = M/2+1, M-2
@@ -267,7 +267,7 @@ func Run(rep *hx.Report, props Props, tier string, sh hx.Shard, deadline time.Ti
 			}
 			rep.Sample(st.String())
 		}
-		rep.Bound += fmt.Sprintf("; S3: M in %v, PC at the last cell (thorough: also the first), forms x 81 field pairs from {0,1,2,M/2,M/2+1,M-2,M-1,46341,65536} with large fields in the operand cells, limits (M,M), (M/2-1750,M/2-1750) and (M/2+1,M-2) in rotation; for M >= 100003 five values whose products exceed 2^32 (quick: arithmetic opcodes only)", larges)
+		rep.Bound += fmt.Sprintf("; S3: M in %v, PC at the first and the last cell, forms x field pairs from {0,1,2,M/2,M/2+1,M-2,M-1,46341,65536,L-1,2L-1} (L the reduced limit) with large fields in the operand cells, limits (M,M), (M/2-1750,M/2-1750) and (M/2+1,M-2) in rotation; for M >= 100003 five values whose products exceed 2^32 (quick: arithmetic opcodes only)", larges)
 	}
 
 	if !thorough {
